@@ -60,13 +60,33 @@ type Disk struct {
 	FailShort bool // a failing write first writes a strict prefix of its data
 	seenKind  int
 	Fired     int
+
+	// CoalesceWrites (opt-in, off by default): consecutive Write calls on the same file count as ONE
+	// numbered operation whose AfterOp callback is deferred until the next operation of another kind or
+	// on another file arrives (it is delivered just before that operation is applied) or until Settle
+	// is called. Zero-length writes are no operation at all. Reason: a record larger than one 32 KiB
+	// block reaches the file as one Write per block issued by Pebble's flusher goroutine while the
+	// caller is still filling blocks; how the bytes are cut into Write calls (an extra empty write, a
+	// few padding bytes on their own) depends on goroutine timing, the byte stream does not. The states
+	// between the writes of a group are prefixes of the group and are covered by byte-level cuts.
+	CoalesceWrites bool
+	pend           bool // a write group is open: its callback has not been delivered yet
+	pendPath       string
+	GroupWrites    int // number of Write calls in the group delivered last (or still open)
+
+	// FailAtByte >= 0 (with Armed and FailKind == OpWrite, CoalesceWrites only) selects the failing
+	// write by position in the byte stream instead of by call count: the write that would carry the
+	// FailAtByte-th byte (0-based, counted over all writes since ArmWriteFaultAtByte) first writes the
+	// bytes before it and then fails. Independent of how the stream is cut into Write calls.
+	FailAtByte int64
+	seenBytes  int64
 }
 
 // NewDisk creates an empty crashable disk on which the directories in dirs (and their parents) exist
 // durably.
 func NewDisk(dirs ...string) *Disk {
 	mem := vfs.NewCrashableMem()
-	d := &Disk{FS: mem, Mem: mem, synced: map[string]int64{}}
+	d := &Disk{FS: mem, Mem: mem, synced: map[string]int64{}, FailAtByte: -1}
 	for _, dir := range dirs {
 		MkdirDurable(mem, dir)
 	}
@@ -125,6 +145,91 @@ func (d *Disk) ArmFault(kind OpKind, nth int, short bool) {
 	d.mu.Lock()
 	defer d.mu.Unlock()
 	d.Armed, d.FailKind, d.FailNth, d.FailShort, d.seenKind = true, kind, nth, short, 0
+	d.FailAtByte, d.seenBytes = -1, 0
+}
+
+// ArmWriteFaultAtByte arms a write fault selected by byte position (see FailAtByte). CoalesceWrites only.
+func (d *Disk) ArmWriteFaultAtByte(at int64) {
+	d.mu.Lock()
+	defer d.mu.Unlock()
+	if !d.CoalesceWrites {
+		panic("jsim Disk: ArmWriteFaultAtByte needs CoalesceWrites")
+	}
+	d.Armed, d.FailKind, d.FailNth, d.FailShort, d.seenKind = true, OpWrite, 0, true, 0
+	d.FailAtByte, d.seenBytes = at, 0
+}
+
+// Settle delivers the deferred callback of an open write group (CoalesceWrites). Call it when the API
+// call under observation has returned.
+func (d *Disk) Settle() {
+	d.mu.Lock()
+	defer d.mu.Unlock()
+	d.settleLocked()
+}
+
+func (d *Disk) settleLocked() {
+	if !d.pend {
+		return
+	}
+	d.pend = false
+	if d.AfterOp != nil && !d.Quiet {
+		d.AfterOp(OpWrite, d.pendPath, false)
+	}
+}
+
+// writeCoalesced is Write under CoalesceWrites.
+func (d *Disk) writeCoalesced(path string, p []byte, do func(q []byte) (int, error)) (int, error) {
+	d.mu.Lock()
+	defer d.mu.Unlock()
+	if d.Quiet {
+		return do(p)
+	}
+	if len(p) == 0 {
+		return 0, nil
+	}
+	cont := d.pend && d.pendPath == path
+	if !cont {
+		d.settleLocked()
+	}
+	fail, cut := false, 0
+	if d.Armed && d.FailKind == OpWrite {
+		if d.FailAtByte >= 0 {
+			if d.seenBytes+int64(len(p)) > d.FailAtByte {
+				fail, cut = true, int(d.FailAtByte-d.seenBytes)
+				d.Armed = false // one shot
+			}
+			d.seenBytes += int64(len(p))
+		} else if !cont {
+			d.seenKind++
+			if d.seenKind == d.FailNth {
+				fail = true
+				if d.FailShort && len(p) > 1 {
+					cut = len(p) / 2
+				}
+			}
+		}
+	}
+	if !cont {
+		d.nOps++
+		d.GroupWrites = 0
+	}
+	d.GroupWrites++
+	if fail {
+		d.Fired++
+		n := 0
+		if cut > 0 {
+			n, _ = do(append([]byte(nil), p[:cut]...))
+		}
+		// the failed write closes the group: one callback for the whole group, marked failed
+		d.pend = false
+		if d.AfterOp != nil {
+			d.AfterOp(OpWrite, path, true)
+		}
+		return n, ErrInjected
+	}
+	n, err := do(p)
+	d.pend, d.pendPath = true, path
+	return n, err
 }
 
 func (d *Disk) Disarm() {
@@ -140,6 +245,9 @@ func (d *Disk) op(kind OpKind, path string, apply func() error, partial func()) 
 	defer d.mu.Unlock()
 	if d.Quiet {
 		return apply()
+	}
+	if d.CoalesceWrites {
+		d.settleLocked()
 	}
 	fail := false
 	if d.Armed && kind == d.FailKind {
@@ -307,6 +415,9 @@ type dfile struct {
 }
 
 func (f *dfile) Write(p []byte) (n int, err error) {
+	if f.d.CoalesceWrites {
+		return f.d.writeCoalesced(f.path, p, f.File.Write)
+	}
 	err = f.d.op(OpWrite, f.path, func() error {
 		var e error
 		n, e = f.File.Write(p)
@@ -426,13 +537,13 @@ func BuildMem(dir string, img Image, crashable bool) *vfs.MemFS {
 
 // QuietDisk wraps a file system for image evaluation: no numbering, no callbacks, no faults.
 func QuietDisk(mem *vfs.MemFS) *Disk {
-	return &Disk{FS: mem, Mem: mem, synced: map[string]int64{}, Quiet: true}
+	return &Disk{FS: mem, Mem: mem, synced: map[string]int64{}, Quiet: true, FailAtByte: -1}
 }
 
 // NewDiskFromImage is a disk whose directory dir durably holds img (a machine restarted after a crash).
 func NewDiskFromImage(dir string, img Image) *Disk {
 	mem := BuildMem(dir, img, true)
-	d := &Disk{FS: mem, Mem: mem, synced: map[string]int64{}}
+	d := &Disk{FS: mem, Mem: mem, synced: map[string]int64{}, FailAtByte: -1}
 	for n, b := range img {
 		d.synced[mem.PathJoin(dir, n)] = int64(len(b))
 	}
